@@ -40,7 +40,26 @@ R7 `_RemotePathMapper.get` filters: entries come from `locations[dep][name]` wit
    entry of the addressed list is answered exactly once when wanted and not at all otherwise.  Tests that
    cannot be expressed over these facts (e.g. a test on the key inside the sweep) are an analysis error.
 
-Not decided: agreement with a reference model for arbitrary histories (needs execution).
+R8 mount points are matched longest-first.  `get_inner_path` (streamflow/data/remotepath.py) translates a path on a wrapping
+   location into the wrapped location's path through the first mount point the path is relative to; register_path and
+   transfer_data register / relate the copy on the wrapped location under that translation.  Every selection of a mount point
+   out of an enumeration of `<location>.mounts` is interpreted: a statement loop that stops at its first match must run in
+   descending order (a strict extension of a string is both greater and longer, so descending lexicographic order and
+   descending length try /data/cache before /data), a loop that keeps its last match in ascending order, `next(...)` needs a
+   descending generator, `max(<matching>, key=len)` is accepted, `min` is not.  The order is read through `sorted(..,
+   reverse=, key=len | lambda | named function)`, `reversed`, `[::-1]`, copies, filtered comprehensions, temporaries,
+   `.sort()` / `.reverse()` in place, `.keys()` / `.items()` (the order must be taken on the component that is tested), helper
+   functions (resolved calls, nesting bound 2) and the parameter of a private helper (all call sites).  When the selection
+   moved out of get_inner_path the same-module functions it calls are searched (bound 2).
+R9 ancestors are created available.  Every `DataLocation(...)` that `_RemotePathMapper.put` constructs itself (in put or in a
+   private helper of data/manager.py it calls, bound 2) receives the constant True for `available` (keyword or positional,
+   through temporaries, both arms of a conditional expression, or the parameter of a private helper at all its call sites);
+   relying on the default (False) is a violation.  Nobody sets the event of a location put created: register_path calls put
+   before it sets the event of the caller's own location, so an ancestor that copies that state is never available.
+
+Not decided: agreement with a reference model for arbitrary histories (needs execution); that `get_inner_path` tests the prefix
+relation correctly (`is_relative_to`) and that the mount table itself is right; `_get_outer_path` (the inverse translation,
+used by glob/walk, not by the registry) is not examined by C21.
 """
 
 from __future__ import annotations
@@ -48,13 +67,14 @@ from __future__ import annotations
 import ast
 import itertools
 
-from ..dataflow import defs_of, reaching_defs
+from ..dataflow import _param_args, defs_of, reaching_defs
 from ..facts import atoms as fact_atoms
 from ..model import enclosing_stmt, parent, unparse
 from ..selftest import V
 from ._util_E import (
     coexec,
     deref,
+    effective_arg,
     enclosing_loops,
     guard_atoms,
     ids_at,
@@ -63,6 +83,7 @@ from ._util_E import (
     loop_binding,
     loops_of,
     membership_atom,
+    signature_default,
     strip_copy,
 )
 
@@ -82,7 +103,9 @@ META = {
         "value expression with a CFG 'executed together' relation; whole-program write/reference tables for data_type, "
         "DataType.INVALID and path_mapper; shape of the invalidation recursion; dominance of wait + PRIMARY test over "
         "every returned source location (through temporaries and awaited helper coroutines, resolved calls followed); guard of the append in put; truth table of the get() filter over every enumeration of "
-        "locations[dep][name] (comprehension clauses, statement loops with append, whole lists). Decides necessary structural conditions only."
+        "locations[dep][name] (comprehension clauses, statement loops with append, whole lists); order of the enumeration of `<location>.mounts` against the way get_inner_path "
+        "selects a mount point (first / last match, next, max); constant-True `available` argument of every DataLocation that put constructs itself (helpers followed). "
+        "Decides necessary structural conditions only."
     ),
     "undecided": "agreement with a reference model for arbitrary registration/relation/invalidation histories (needs execution)",
     "assumptions": [
@@ -1022,8 +1045,349 @@ def r7b(ctx):
                instance="get_data_locations:forward", message=f"path_mapper.get is called with {wrong or ''} {('missing ' + str(missing)) if missing else ''}: the query is answered for another location / type")
 
 
-RULES = [("R1", r1), ("R2", r2), ("R3", r3), ("R4", r4), ("R5", r5), ("R6", r6), ("R7", lambda ctx: (r7(ctx), r7b(ctx)))]
-FLOORS = {"R1": 5, "R2": 9, "R3": 4, "R4": 6, "R5": 3, "R6": 1, "R7": 3}
+# --------------------------------------------------------------------------- R8 (mount points, longest first)
+
+INNER = "streamflow.data.remotepath.get_inner_path"
+R8_INLINE = 2  # helpers followed from get_inner_path (resolved calls), nesting bound
+_FLIP = {"asc": "desc", "desc": "asc", "none": "none"}
+
+
+def _follow(f, e, at, depth=6):
+    """Flow-sensitive temporaries: the expression a local name holds where it is read -> (expression, statement that
+    evaluates it)."""
+    while depth > 0:
+        if isinstance(e, ast.NamedExpr):
+            e = e.value
+        elif isinstance(e, ast.Name):
+            ds = [d for d in reaching_defs(f, e.id, at) if d.kind != "comp"]
+            if len(ds) == 1 and ds[0].kind in ("assign", "walrus") and ds[0].index is None and ds[0].value is not None and ds[0].stmt is not None:
+                e, at = ds[0].value, ds[0].stmt
+            else:
+                break
+        else:
+            break
+        depth -= 1
+    return e, at
+
+
+def _const(f, e, at):
+    e, _ = _follow(f, e, at)
+    return (True, e.value) if isinstance(e, ast.Constant) else (False, None)
+
+
+def _sort_key(prog, f, k, at):
+    """What a `key=` function orders by -> (component index | None = the element itself, negated?, by length?) or None
+    when it cannot be read: `len`, a lambda / a named one-expression function returning `x`, `x[i]`, `len(..)`, `-len(..)`
+    or a tuple starting with one of these."""
+    k, _ = _follow(f, k, at)
+    arg = body = None
+    if isinstance(k, ast.Name) and k.id == "len":
+        return None, False, True
+    if isinstance(k, ast.Lambda) and len(k.args.args) == 1:
+        arg, body = k.args.args[0].arg, k.body
+    elif isinstance(k, ast.Name):
+        # a named function instead of a lambda: nested in f or at module level, one `return <expression>`
+        fn = prog.functions.get(f"{f.qualname}.<locals>.{k.id}") or prog.functions.get(f"{f.module.name}.{k.id}")
+        if fn is not None and not isinstance(fn.node, ast.Lambda):
+            ps = [p for p in fn.params if p not in ("self", "cls")]
+            stmts = [s for s in fn.node.body if not (isinstance(s, ast.Expr) and isinstance(s.value, ast.Constant)) and not isinstance(s, ast.Pass)]
+            if len(ps) == 1 and len(stmts) == 1 and isinstance(stmts[0], ast.Return) and stmts[0].value is not None:
+                arg, body = ps[0], stmts[0].value
+    if body is None:
+        return None
+    if isinstance(body, ast.Tuple) and body.elts:
+        body = body.elts[0]
+    neg = False
+    if isinstance(body, ast.UnaryOp) and isinstance(body.op, ast.USub):
+        neg, body = True, body.operand
+    by_len = False
+    if isinstance(body, ast.Call) and isinstance(body.func, ast.Name) and body.func.id == "len" and len(body.args) == 1 and not body.keywords:
+        by_len, body = True, body.args[0]
+    if neg and not by_len:
+        return None
+    if isinstance(body, ast.Name) and body.id == arg:
+        return None, neg, by_len
+    if isinstance(body, ast.Subscript) and isinstance(body.value, ast.Name) and body.value.id == arg and isinstance(body.slice, ast.Constant) and isinstance(body.slice.value, int):
+        return body.slice.value, neg, by_len
+    return None
+
+
+def _sorted_order(prog, f, inner, kws, at):
+    """Order produced by `sorted(<inner>, **kws)` / `<inner>.sort(**kws)` -> (direction, component, view) or None."""
+    if inner is None:
+        return None
+    rev, by, neg, by_len = False, None, False, False
+    for k in kws:
+        if k.arg == "reverse":
+            isc, val = _const(f, k.value, at)
+            if not isc or not isinstance(val, bool):
+                return None
+            rev = val
+        elif k.arg == "key":
+            isc, val = _const(f, k.value, at)
+            if isc and val is None:
+                continue
+            sk = _sort_key(prog, f, k.value, at)
+            if sk is None:
+                return None
+            by, neg, by_len = sk
+        else:
+            return None
+    view = inner[2]
+    if by is not None and view != "items":
+        return None
+    if by_len and by is None and view == "items":
+        return None  # the length of a (mount point, target) pair says nothing
+    return ("desc" if rev != neg else "asc"), by, view
+
+
+def _mount_order(prog, f, e, at, depth=0, hops=12):
+    """The order in which the expression `e` (read at statement `at` of `f`) enumerates the mount points of a location ->
+    (direction 'asc' | 'desc' | 'none', component the order is taken on (None = the element itself), view 'keys' | 'items'
+    | 'values'); None when `e` is not an enumeration of `<location>.mounts` or cannot be interpreted.  A strict extension of
+    a string is greater than the string and longer: descending lexicographic order and descending length both try a nested
+    mount point before the one that contains it."""
+    if hops <= 0:
+        return None
+    name = e.id if isinstance(e, ast.Name) else None
+    if name is not None:
+        ds = [d for d in reaching_defs(f, name, at) if d.kind != "comp"]
+        if len(ds) == 1 and ds[0].kind == "param" and depth < R8_INLINE:
+            sites = _param_args(prog, f, name)
+            if not sites:
+                return None
+            res = {_mount_order(prog, g, a, a, depth + 1, hops - 1) for g, a in sites}
+            return res.pop() if len(res) == 1 else None
+    e, at2 = _follow(f, e, at)
+    res = None
+    if isinstance(e, ast.Attribute) and e.attr == "mounts":
+        res = ("none", None, "keys")
+    elif isinstance(e, ast.Call) and isinstance(e.func, ast.Attribute) and e.func.attr in ("keys", "items", "values") and not e.args and not e.keywords:
+        inner = _mount_order(prog, f, e.func.value, at2, depth, hops - 1)
+        res = None if inner is None or inner[2] != "keys" or inner[0] != "none" else ("none", None, e.func.attr)
+    elif isinstance(e, ast.Call) and isinstance(e.func, ast.Name) and e.func.id == "sorted" and len(e.args) == 1:
+        res = _sorted_order(prog, f, _mount_order(prog, f, e.args[0], at2, depth, hops - 1), e.keywords, at2)
+    elif isinstance(e, ast.Call) and isinstance(e.func, ast.Name) and e.func.id == "reversed" and len(e.args) == 1 and not e.keywords:
+        inner = _mount_order(prog, f, e.args[0], at2, depth, hops - 1)
+        res = None if inner is None else (_FLIP[inner[0]], inner[1], inner[2])
+    elif isinstance(e, ast.Call) and isinstance(e.func, ast.Name) and e.func.id in ("list", "tuple", "iter") and len(e.args) == 1 and not e.keywords:
+        res = _mount_order(prog, f, e.args[0], at2, depth, hops - 1)
+    elif isinstance(e, ast.Subscript) and isinstance(e.slice, ast.Slice):
+        s = e.slice
+        inner = _mount_order(prog, f, e.value, at2, depth, hops - 1)
+        if inner is not None and s.lower is None and s.upper is None and s.step is not None and unparse(s.step) == "-1":
+            res = (_FLIP[inner[0]], inner[1], inner[2])
+        elif inner is not None and s.lower is None and s.upper is None and s.step is None:
+            res = inner
+    elif isinstance(e, (ast.ListComp, ast.GeneratorExp)) and len(e.generators) == 1 and not e.generators[0].is_async \
+            and unparse(e.elt) == unparse(e.generators[0].target):
+        # a filtered copy keeps the order of what it copies
+        res = _mount_order(prog, f, e.generators[0].iter, at2, depth, hops - 1)
+    elif isinstance(e, ast.Call) and depth < R8_INLINE:
+        helpers = [prog.functions.get(q) for q in prog.resolve_call(f, e)]
+        if helpers and all(h is not None and not h.is_async and h.qualname != f.qualname for h in helpers):
+            got = set()
+            for h in helpers:
+                rets = [n for n in h.body_nodes() if isinstance(n, ast.Return)]
+                if not rets:
+                    return None
+                for r in rets:
+                    got.add(None if r.value is None else _mount_order(prog, h, r.value, r, depth + 1, hops - 1))
+            res = got.pop() if len(got) == 1 else None
+    if res is None:
+        return None
+    if name is not None:
+        # sorted in place between its definition and the enumeration: `ms = list(x.mounts); ms.sort(reverse=True)`
+        muts = [n for n in f.body_nodes() if isinstance(n, ast.Call) and isinstance(n.func, ast.Attribute) and isinstance(n.func.value, ast.Name)
+                and n.func.value.id == name and n.func.attr in ("sort", "reverse", "append", "extend", "insert", "remove", "pop")]
+        if muts:
+            g = f.cfg
+            uids = ids_at(f, at)
+            m = muts[0]
+            mids = ids_at(f, m)
+            if len(muts) != 1 or m.func.attr not in ("sort", "reverse") or not uids or not mids or not all(g.dominates(mids, u) for u in uids):
+                return None
+            if m.func.attr == "reverse":
+                return (_FLIP[res[0]], res[1], res[2]) if not m.args and not m.keywords else None
+            return _sorted_order(prog, f, res, m.keywords, m) if not m.args else None
+    return res
+
+
+def _tested_component(f, target, scope):
+    """Which component of the loop target the prefix test reads -> (found?, index | None = the element itself)."""
+    if isinstance(target, ast.Name):
+        return True, None
+    if not isinstance(target, (ast.Tuple, ast.List)):
+        return False, None
+    names = {x.id: i for i, x in enumerate(target.elts) if isinstance(x, ast.Name)}
+    hits = set()
+    for n in scope:
+        if isinstance(n, ast.Call) and isinstance(n.func, ast.Attribute) and n.func.attr in ("is_relative_to", "startswith"):
+            for a in n.args:
+                t = ktext(f, a)
+                if t in names:
+                    hits.add(names[t])
+    return (True, hits.pop()) if len(hits) == 1 else (False, None)
+
+
+def _mount_selections(prog, f):
+    """Every construct of `f` that picks a mount point out of an enumeration of `<location>.mounts`: statement loops and
+    `next(...)` / `max(...)` / `min(...)` over it -> [(kind, node, order, target, scope nodes, keywords)]."""
+    out = []
+    for n in f.body_nodes():
+        if isinstance(n, (ast.For, ast.AsyncFor)):
+            o = _mount_order(prog, f, n.iter, n)
+            if o is not None:
+                out.append(("loop", n, o, n.target, [x for s in n.body for x in ast.walk(s)], []))
+        elif isinstance(n, ast.Call) and isinstance(n.func, ast.Name) and n.func.id in ("next", "max", "min") and n.args:
+            at = enclosing_stmt(n) or n
+            o = _mount_order(prog, f, n.args[0], at)
+            if o is not None:
+                src, _ = _follow(f, n.args[0], at)
+                comp = src if isinstance(src, (ast.ListComp, ast.GeneratorExp)) else None
+                target = comp.generators[0].target if comp is not None else ast.Name(id="_", ctx=ast.Store())
+                scope = [x for c in comp.generators[0].ifs for x in ast.walk(c)] if comp is not None else []
+                out.append((n.func.id, n, o, target, scope, n.keywords))
+    return out
+
+
+def r8(ctx):
+    prog = ctx.prog
+    f0 = prog.func(INNER)
+    seen = {f0.qualname}
+    level = [f0]
+    found = []
+    for depth in range(R8_INLINE + 1):
+        for f in level:
+            found.extend((f, s) for s in _mount_selections(prog, f))
+        if found:
+            break
+        nxt = []
+        for f in level:
+            for c in f.calls():
+                for q in prog.resolve_call(f, c):
+                    h = prog.functions.get(q)
+                    if h is not None and h.qualname not in seen and h.module is f0.module:
+                        seen.add(h.qualname)
+                        nxt.append(h)
+        level = nxt
+    ctx.require(bool(found), "C21.R8: no enumeration of `<location>.mounts` (loop, next/max over it) found in get_inner_path or the helpers it calls: "
+                             "cannot decide in which order the mount points are matched")
+    for i, (f, (kind, node, order, target, scope, kws)) in enumerate(found):
+        direction, by, view = order
+        shown = " ".join(unparse(node.iter if kind == "loop" else node).split())[:110]
+        okc, comp = _tested_component(f, target, scope)
+        ctx.require(okc, f"C21.R8: {f.qualname}: cannot tell which component of `{unparse(target)}` the prefix test of `{shown}` reads")
+        # the order is taken on the component that is tested (a pair is ordered by its first component first)
+        same = by == comp or (by is None and comp == 0) or (by == 0 and comp is None)
+        inst = f"{f.name}:mounts-order" + (f":{i}" if i else "")
+        if kind == "loop":
+            early = any(isinstance(x, (ast.Return, ast.Break)) for x in scope)
+            want = "desc" if early else "asc"
+            ok = same and direction == want
+            how = ("is not ordered" if direction == "none" else "is ordered on another component than the one tested" if not same
+                   else f"runs in {'ascending' if direction == 'asc' else 'descending'} order")
+            ctx.ob("R8", f"{f.name}: `for {unparse(target)} in {shown}` tries the mount points longest-first (the most specific mount point wins)", ok, func=f, node=node,
+                   instance=inst,
+                   message=(f"`for {unparse(target)} in {shown}` {how} and {'stops at the first' if early else 'keeps the last'} mount point the path is relative to: a mount point that "
+                            "contains another one (/data and /data/cache) wins over the nested one, so a path under the nested mount resolves to the wrong wrapped path "
+                            "and is registered / looked up there"),
+                   witness=[f"iterable: {shown}", f"order: {direction}, selection: {'first match' if early else 'last match'}; wanted: {want}ending"])
+        elif kind == "next":
+            ok = same and direction == "desc"
+            ctx.ob("R8", f"{f.name}: `{shown}` takes the first match of a longest-first enumeration of the mount points", ok, func=f, node=node, instance=inst,
+                   message=f"`{shown}` takes the first matching mount point of an enumeration that is not in descending order: the containing mount wins over a nested one")
+        else:
+            sk = (None, False, False)
+            good = True
+            for k in kws:
+                if k.arg == "key":
+                    got = _sort_key(prog, f, k.value, enclosing_stmt(node) or node)
+                    ctx.require(got is not None, f"C21.R8: {f.qualname}: cannot interpret the key of `{shown}`")
+                    sk = got
+                elif k.arg != "default":
+                    good = False
+            ctx.require(good, f"C21.R8: {f.qualname}: cannot interpret `{shown}`")
+            same = sk[0] == comp or (sk[0] is None and comp == 0) or (sk[0] == 0 and comp is None)
+            ok = same and ((kind == "max") != sk[1]) and bool(scope)
+            ctx.ob("R8", f"{f.name}: `{shown}` selects the longest matching mount point", ok, func=f, node=node, instance=inst,
+                   message=f"`{shown}` does not select the longest mount point the path is relative to: the containing mount wins over a nested one")
+
+
+# --------------------------------------------------------------------------- R9 (ancestors are created available)
+
+R9_INLINE = 2
+
+
+def _is_true(prog, f, e, at, depth=0):
+    """`e` (read at `at` in `f`) is the constant True on every path: through temporaries, both arms of a conditional
+    expression, and the parameter of a private helper (every resolved call site passes True)."""
+    if isinstance(e, ast.Name):
+        ds = [d for d in reaching_defs(f, e.id, at) if d.kind != "comp"]
+        if not ds:
+            return False
+        for d in ds:
+            if d.kind == "param" and depth < R9_INLINE:
+                sites = _param_args(prog, f, e.id)
+                if not sites or not all(_is_true(prog, g, a, a, depth + 1) for g, a in sites):
+                    return False
+            elif d.kind in ("assign", "walrus") and d.index is None and d.value is not None and d.stmt is not None:
+                if not _is_true(prog, f, d.value, d.stmt, depth):
+                    return False
+            else:
+                return False
+        return True
+    if isinstance(e, ast.NamedExpr):
+        return _is_true(prog, f, e.value, at, depth)
+    if isinstance(e, ast.IfExp):
+        return _is_true(prog, f, e.body, at, depth) and _is_true(prog, f, e.orelse, at, depth)
+    return isinstance(e, ast.Constant) and e.value is True
+
+
+def r9(ctx):
+    prog = ctx.prog
+    put = prog.func(f"{MAPPER}.put")
+    init = prog.func(f"{DLOC}.__init__")
+    declared, _d = signature_default(init, "available")
+    ctx.require(declared, "C21.R9: DataLocation.__init__ has no `available` parameter any more")
+    mod = prog.module(MOD)
+    seen = {put.qualname}
+    level = [put]
+    ctors = []
+    for depth in range(R9_INLINE + 1):
+        nxt = []
+        for f in level:
+            for c in f.calls():
+                qs = prog.resolve_call(f, c)
+                if any(q in (DLOC, f"{DLOC}.__init__") for q in qs):
+                    ctors.append((f, c))
+                    continue
+                for q in qs:
+                    h = prog.functions.get(q)
+                    if h is not None and h.qualname not in seen and h.module is mod and h.name.startswith("_") and not h.name.startswith("__"):
+                        seen.add(h.qualname)
+                        nxt.append(h)
+        level = nxt
+    ctx.require(bool(ctors), "C21.R9: put (and the private helpers it calls) no longer constructs the DataLocation of an ancestor directory")
+    per = {}
+    for f, c in ctors:
+        k = per[f.qualname] = per.get(f.qualname, 0) + 1
+        arg, how = effective_arg(init, c, "available", bound=True)
+        ctx.require(how in ("explicit", "default"), f"C21.R9: {f.qualname}: cannot read the `available` argument of `{unparse(c)[:80]}`")
+        at = enclosing_stmt(c) or c
+        ok = how == "explicit" and _is_true(prog, f, arg, at)
+        shown = "the default (False)" if how == "default" else f"`{' '.join(unparse(arg).split())[:70]}`"
+        via = "" if f is put else f" (in {f.qualname}, followed from put)"
+        ctx.ob("R9", f"put: the DataLocation it creates itself{via} is constructed with available=True", ok, func=f, node=c,
+               instance=f"{f.name}:DataLocation:available" + (f":{k}" if k > 1 else ""),
+               message=(f"the DataLocation that put creates for an ancestor directory{via} gets available={shown} instead of the constant True: nobody ever sets the event of a "
+                        "location that put created itself (register_path calls put before it sets the event of the caller's own location), so everything that waits for "
+                        "the ancestor (`get_source_location`, transfers from it) blocks forever"),
+               witness=[f"constructor: {' '.join(unparse(c).split())[:160]}"])
+
+
+RULES = [("R1", r1), ("R2", r2), ("R3", r3), ("R4", r4), ("R5", r5), ("R6", r6), ("R7", lambda ctx: (r7(ctx), r7b(ctx))), ("R8", r8), ("R9", r9)]
+FLOORS = {"R1": 5, "R2": 9, "R3": 4, "R4": 6, "R5": 3, "R6": 1, "R7": 3, "R8": 1, "R9": 1}
 
 M = MAPPER
 _PUT_GUARD = "if location.path in node.valid_paths.get(location.deployment, {}).get(location.name, set()):"
@@ -1052,6 +1416,21 @@ _GET_APPEND = ("result = []\n    for dep in [deployment] if deployment is not No
                "            for loc in node.locations.get(dep, {}).get(n, []):\n"
                "                if data_type is not None and loc.data_type != data_type:\n                    continue\n"
                "                result.append(loc)\n    return result")
+_MNT_LOOP = "for mount in sorted(path.location.mounts.keys(), reverse=True):"
+_MNT_HEAD = _MNT_LOOP + "\n            if path.is_relative_to(mount):\n                inner_path"
+_MNT_LAST = ("found = None\n        for m in sorted(path.location.mounts):\n            if path.is_relative_to(m):\n                found = m\n"
+             "        for mount in [found] if found is not None else []:\n            if True:\n                inner_path")
+_MNT_NEXT = ("mount = next((m for m in sorted(path.location.mounts, reverse=True) if path.is_relative_to(m)), None)\n"
+             "        if mount is not None:\n            if True:\n                inner_path")
+_MNT_MAX = ("mount = max((m for m in path.location.mounts if path.is_relative_to(m)), key=len, default=None)\n"
+            "        if mount is not None:\n            if True:\n                inner_path")
+INNER_FILE = "streamflow/data/remotepath.py"
+_ANC_RELPATH = "relpath if relpath and node_path.endswith(relpath) else path_processor.basename(node_path)"
+_ANC_CTOR = f"DataLocation(location=data_location.location, path=node_path, relpath={_ANC_RELPATH}, data_type=DataType.PRIMARY, available=True)"
+_ANC_SPAN = ("relpath = data_location.relpath\n    for node_path in reversed(nodes):\n        node = nodes[node_path]\n"
+             f"        location = data_location if node_path == path else {_ANC_CTOR}")
+_ANC_HELPER = ("def _ancestor_location(data_location, node_path, relpath, available):\n"
+               "    return DataLocation(location=data_location.location, path=node_path, relpath=relpath, data_type=DataType.PRIMARY, available=available)\n")
 VARIANTS = [
     # ---- R1
     V("put: valid_paths.add dropped", FILE, f"{M}.put",
@@ -1196,4 +1575,55 @@ VARIANTS = [
     V("benign: S12 repaired with a path guard", FILE, f"{M}.invalidate_location",
       "data_loc.data_type = DataType.INVALID\n        node.valid_paths[location.deployment][location.name].discard(data_loc.path)",
       "if data_loc.path == path:\n            data_loc.data_type = DataType.INVALID\n            node.valid_paths[location.deployment][location.name].discard(data_loc.path)", None),
+    # ---- R8
+    V("get_inner_path: mount points tried in ascending order (the containing mount first)", INNER_FILE, INNER, _MNT_LOOP, "for mount in sorted(path.location.mounts):", "R8"),
+    V("get_inner_path: mount points tried in dictionary order", INNER_FILE, INNER, _MNT_LOOP, "for mount in path.location.mounts:", "R8"),
+    V("get_inner_path: reverse=False", INNER_FILE, INNER, _MNT_LOOP, "for mount in sorted(path.location.mounts.keys(), reverse=False):", "R8"),
+    V("get_inner_path: descending order reversed again", INNER_FILE, INNER, _MNT_LOOP, "for mount in reversed(sorted(path.location.mounts.keys(), reverse=True)):", "R8"),
+    V("get_inner_path: shortest mount point first", INNER_FILE, INNER, _MNT_LOOP, "for mount in sorted(path.location.mounts, key=len):", "R8"),
+    V("get_inner_path: list sorted in place, ascending", INNER_FILE, INNER, _MNT_LOOP,
+      "mounts = list(path.location.mounts)\n        mounts.sort()\n        for mount in mounts:", "R8"),
+    V("get_inner_path: order taken from a helper that sorts ascending", INNER_FILE, INNER, _MNT_LOOP, "for mount in _mount_points(path.location):", "R8",
+      append="def _mount_points(location):\n    return sorted(location.mounts)\n"),
+    V("get_inner_path: pairs ordered by the target, prefix test on the mount point", INNER_FILE, INNER, _MNT_LOOP,
+      "for mount, _target in sorted(path.location.mounts.items(), key=lambda item: item[1], reverse=True):", "R8"),
+    V("get_inner_path: last match kept over a descending enumeration", INNER_FILE, INNER, _MNT_HEAD, _MNT_LAST.replace("sorted(path.location.mounts)", "sorted(path.location.mounts, reverse=True)"), "R8"),
+    V("get_inner_path: first match of an ascending generator", INNER_FILE, INNER, _MNT_HEAD, _MNT_NEXT.replace(", reverse=True", ""), "R8"),
+    V("get_inner_path: shortest matching mount point selected", INNER_FILE, INNER, _MNT_HEAD, _MNT_MAX.replace("max(", "min("), "R8"),
+    V("benign: sorted over the mapping itself", INNER_FILE, INNER, _MNT_LOOP, "for mount in sorted(path.location.mounts, reverse=True):", None),
+    V("benign: reversed(sorted(...))", INNER_FILE, INNER, _MNT_LOOP, "for mount in reversed(sorted(path.location.mounts)):", None),
+    V("benign: sorted(...)[::-1]", INNER_FILE, INNER, _MNT_LOOP, "for mount in sorted(path.location.mounts.keys())[::-1]:", None),
+    V("benign: longest mount point first", INNER_FILE, INNER, _MNT_LOOP, "for mount in sorted(path.location.mounts, key=len, reverse=True):", None),
+    V("benign: negated length as key", INNER_FILE, INNER, _MNT_LOOP, "for mount in sorted(path.location.mounts, key=lambda m: -len(m)):", None),
+    V("benign: ordered mount points through a temporary", INNER_FILE, INNER, _MNT_LOOP,
+      "mount_points = sorted(path.location.mounts.keys(), reverse=True)\n        for mount in mount_points:", None),
+    V("benign: list sorted in place, descending", INNER_FILE, INNER, _MNT_LOOP,
+      "mounts = list(path.location.mounts)\n        mounts.sort(reverse=True)\n        for mount in mounts:", None),
+    V("benign: order taken from a helper that sorts descending", INNER_FILE, INNER, _MNT_LOOP, "for mount in _mount_points(path.location):", None,
+      append="def _mount_points(location):\n    return sorted(location.mounts, reverse=True)\n"),
+    V("benign: private helper sorts the mapping it is handed", INNER_FILE, INNER, _MNT_LOOP, "for mount in _most_specific_first(path.location.mounts):", None,
+      append="def _most_specific_first(mounts):\n    return sorted(mounts, reverse=True)\n"),
+    V("benign: (mount point, target) pairs in descending order", INNER_FILE, INNER, _MNT_LOOP, "for mount, _target in sorted(path.location.mounts.items(), reverse=True):", None),
+    V("benign: last match kept over an ascending enumeration", INNER_FILE, INNER, _MNT_HEAD, _MNT_LAST, None),
+    V("benign: first match of a descending generator", INNER_FILE, INNER, _MNT_HEAD, _MNT_NEXT, None),
+    V("benign: longest matching mount point selected with max", INNER_FILE, INNER, _MNT_HEAD, _MNT_MAX, None),
+    # ---- R9
+    V("put: ancestors inherit the (not yet set) availability of the registered location", FILE, f"{M}.put", "available=True)", "available=data_location.available.is_set())", "R9"),
+    V("put: ancestors created with the default availability", FILE, f"{M}.put", ", available=True)", ")", "R9"),
+    V("put: ancestors created unavailable", FILE, f"{M}.put", "available=True)", "available=False)", "R9"),
+    V("put: availability of the ancestors through a temporary that copies the caller's event", FILE, f"{M}.put",
+      _ANC_SPAN, "ready = data_location.available.is_set()\n    " + _ANC_SPAN.replace("available=True)", "available=ready)"), "R9"),
+    V("put: extracted constructor is handed the caller's availability", FILE, f"{M}.put", _ANC_CTOR,
+      f"_ancestor_location(data_location, node_path, {_ANC_RELPATH}, data_location.available.is_set())", "R9", append=_ANC_HELPER),
+    V("put: extracted constructor drops the availability", FILE, f"{M}.put", _ANC_CTOR,
+      f"_ancestor_location(data_location, node_path, {_ANC_RELPATH}, True)", "R9", append=_ANC_HELPER.replace(", available=available)", ")")),
+    V("benign: availability of the ancestors through a constant temporary", FILE, f"{M}.put",
+      _ANC_SPAN, "ready = True\n    " + _ANC_SPAN.replace("available=True)", "available=ready)"), None),
+    V("benign: ancestor constructor extracted into a module-level helper that is handed True", FILE, f"{M}.put", _ANC_CTOR,
+      f"_ancestor_location(data_location, node_path, {_ANC_RELPATH}, True)", None, append=_ANC_HELPER),
+    V("benign: ancestor constructor with positional arguments", FILE, f"{M}.put", _ANC_CTOR,
+      f"DataLocation(data_location.location, node_path, {_ANC_RELPATH}, DataType.PRIMARY, True)", None),
+    V("benign: B21-4 shape, conditional expression of put written as if/else", FILE, f"{M}.put",
+      f"location = data_location if node_path == path else {_ANC_CTOR}",
+      f"if node_path == path:\n            location = data_location\n        else:\n            location = {_ANC_CTOR}", None),
 ]
